@@ -81,7 +81,17 @@ static void scen_c17(int histories, int stream) {
         /* a healthy volatile + permanent blob pair taken before the failure */
         unsigned char *hv = NULL, *hp = NULL; uint32_t hvl = 0, hpl = 0;
         TPMLIB_GetState(TPMLIB_STATE_VOLATILE, &hv, &hvl); TPMLIB_GetState(TPMLIB_STATE_PERMANENT, &hp, &hpl);
-        int route = rnd(3);
+        int route = rnd(5);
+        if (route >= 3) {
+            /* storage refuses the commit of whatever command commits next in a random history (NV, objects, hierarchies, DA, audit, ...) */
+            World w; memset(&w, 0, sizeof w); g_gen_host_rng_ok = 1;
+            for (int i = 0, n = rnd(8); i < n; i++) gen_op(&w, &b);
+            g_store_fail_at = g_store_calls; g_store_fail_sticky = (route == 4);
+            int k = 0; for (; k < 60 && !g_inFailureMode; k++) gen_op(&w, &b);
+            if (!g_inFailureMode) { cmd_begin(&b, ST_SESSIONS, CC_ClearControl); b_u32(&b, RH_PLATFORM); auth_pw(&b, w.platformAuth, strlen(w.platformAuth)); b_u8(&b, 0); run(&b); w.last_cc = CC_ClearControl; w.last_rc = g32(g_respbuf + 6); }
+            tr("enter route=storefault rc=%u len=%u infail=%d cc=%x after=%d", w.last_rc, g32(g_respbuf + 2), g_inFailureMode, w.last_cc, k);
+            w_reset(&w);
+        } else
         if (route == 0 || route == 2) {
             /* storage refuses the next commit */
             g_store_fail_at = g_store_calls; g_store_fail_sticky = (route == 2);
